@@ -22,6 +22,7 @@ import Rsa.Lemmas.C03Coded3
 import Rsa.Lemmas.C03BuresBridge
 import Rsa.Lemmas.C03Gram
 import Rsa.Lemmas.C03Session
+import Rsa.Lemmas.C03Scale
 import Mathlib.Tactic.IntervalCases
 import Mathlib.Algebra.BigOperators.Field
 
@@ -1272,5 +1273,143 @@ example : (∀ c ∈ ([⟨false, true, id, fun x y => x + y⟩, ⟨true, false, 
       ⟨false, false, id, fun x y => x - y⟩] : List (Call Int Int)), c.safe = true) ∧
     (0 < ([[1, 2], [3]] : Store Int).length ∧ 1 < ([[1, 2], [3]] : Store Int).length) := by
   decide
+
+/-! ## 20. Positive scaling (round 5): every similarity is unchanged when either RDM is multiplied by a
+    positive number — RDMs of any magnitude (squared distances of MEG data in tesla, ~1e-26) are inside the
+    quantifier of the property.  `scaleBy c x = x.map (c * ·)`. -/
+
+/-- the zero-norm guard of `_cosine` *as written in the source text* (regenerated leaf `cosineSel`) is
+    scale-free: a positive multiple of a norm is selected iff the norm is.  An absolute tolerance
+    (`norm > 1e-12`, `norm² > eps`) does not have this property. -/
+theorem cosine_guard_scale_free (c a : ℝ) (hc : 0 < c) :
+    Rsa.Gen.C03.cosineSel (c * a) = Rsa.Gen.C03.cosineSel a := by
+  have h1 := cosineSel_iff (c * a)
+  have h2 := cosineSel_iff a
+  have h3 : 0 < c * a ↔ 0 < a := mul_pos_iff_of_pos_left hc
+  have hb : ∀ t : ℝ, Rsa.Gen.C03.cosineSel t = 1 ∨ Rsa.Gen.C03.cosineSel t = 0 := by
+    intro t; unfold Rsa.Gen.C03.cosineSel; split_ifs <;> simp
+  by_cases h : 0 < a
+  · rw [h2.mpr h, h1.mpr (h3.mpr h)]
+  · have e2 : Rsa.Gen.C03.cosineSel a = 0 := (hb a).resolve_left (fun e => h (h2.mp e))
+    have e1 : Rsa.Gen.C03.cosineSel (c * a) = 0 :=
+      (hb (c * a)).resolve_left (fun e => h (h3.mp (h1.mp e)))
+    rw [e1, e2]
+
+theorem cosine_scale (x y : List ℝ) (c d : ℝ) (hc : 0 < c) (hd : 0 < d) :
+    cosine (scaleBy c x) (scaleBy d y) = cosine x y := by
+  rw [cosine_eq, cosine_eq, dot_scale, dot_scale, dot_scale, sqrt_scale_sq c _ hc, sqrt_scale_sq d _ hd]
+  by_cases h : 0 < Real.sqrt (dot x x) ∧ 0 < Real.sqrt (dot y y)
+  · rw [if_pos h, if_pos ⟨mul_pos hc h.1, mul_pos hd h.2⟩]
+    have := h.1.ne'
+    have := h.2.ne'
+    field_simp
+  · rw [if_neg h, if_neg]
+    rintro ⟨a, b⟩
+    exact h ⟨(mul_pos_iff_of_pos_left hc).mp a, (mul_pos_iff_of_pos_left hd).mp b⟩
+
+theorem corr_scale (x y : List ℝ) (c d : ℝ) (hc : 0 < c) (hd : 0 < d) :
+    corr (scaleBy c x) (scaleBy d y) = corr x y := by
+  unfold corr
+  rw [center_scale, center_scale]
+  exact cosine_scale _ _ c d hc hd
+
+/-- the same for `_cosine` / `compare_correlation` / `compare_spearman` as coded (guard and the two
+    divisions from the source text) -/
+theorem cosine_coded_scale (x y : List ℝ) (c d : ℝ) (hc : 0 < c) (hd : 0 < d) :
+    cosineCoded (scaleBy c x) (scaleBy d y) = cosineCoded x y ∧
+    corrCoded (scaleBy c x) (scaleBy d y) = corrCoded x y ∧
+    spearmanCoded (scaleBy c x) (scaleBy d y) = spearmanCoded x y := by
+  refine ⟨?_, ?_, ?_⟩
+  · rw [cosineCoded_eq, cosineCoded_eq]; exact cosine_scale x y c d hc hd
+  · rw [corrCoded_eq, corrCoded_eq]; exact corr_scale x y c d hc hd
+  · rw [spearmanCoded_eq, spearmanCoded_eq]; unfold spearman
+    rw [avgRank_scale c hc, avgRank_scale d hd]
+
+theorem spearman_scale (x y : List ℝ) (c d : ℝ) (hc : 0 < c) (hd : 0 < d) :
+    spearman (scaleBy c x) (scaleBy d y) = spearman x y := by
+  unfold spearman
+  rw [avgRank_scale c hc, avgRank_scale d hd]
+
+theorem rhoA_scale (x y : List ℝ) (c d : ℝ) (hc : 0 < c) (hd : 0 < d) :
+    rhoA (scaleBy c x) (scaleBy d y) = rhoA x y ∧ rhoACoded (scaleBy c x) (scaleBy d y) = rhoACoded x y := by
+  constructor
+  · unfold rhoA
+    rw [avgRank_scale c hc, avgRank_scale d hd, scaleBy_length]
+  · unfold rhoACoded
+    rw [avgRank_scale c hc, avgRank_scale d hd, scaleBy_length]
+
+/-- Kendall: all five pair counts are those of the unscaled vectors, hence tau-a (as coded and as defined)
+    and tau-b (incl. its NaN case) do not change -/
+theorem tau_scale (x y : List ℝ) (c d : ℝ) (hc : 0 < c) (hd : 0 < d) :
+    tauA (scaleBy c x) (scaleBy d y) = tauA x y ∧ tauASpec (scaleBy c x) (scaleBy d y) = tauASpec x y ∧
+    tauB (scaleBy c x) (scaleBy d y) = tauB x y := by
+  obtain ⟨h1, h2, h3, h4, h5⟩ := counts_scale c d hc hd x y
+  refine ⟨?_, ?_, ?_⟩
+  · unfold tauA conMinusDis
+    rw [h2, h3, h4, h5, scaleBy_length]
+  · unfold tauASpec
+    rw [h1, h2, scaleBy_length]
+  · unfold tauB conMinusDis
+    rw [h2, h3, h4, h5, scaleBy_length]
+
+/-- whitened cosine / correlation: if `V s = r` then `V (c s) = c r`, and the three inner products of the
+    coded expression scale so that the value (and the undefined case) is unchanged — for every `V`,
+    every solver -/
+theorem whitened_scale (V : List (List ℝ)) (r1 r2 s1 s2 : List ℝ) (c d : ℝ) (hc : 0 < c) (hd : 0 < d) :
+    (matVec V s1 = r1 → matVec V (scaleBy c s1) = scaleBy c r1) ∧
+    wcosFrom (scaleBy c r1) (scaleBy d r2) (scaleBy c s1) (scaleBy d s2) = wcosFrom r1 r2 s1 s2 := by
+  constructor
+  · intro h
+    subst h
+    unfold matVec
+    simp only [scaleBy, List.map_map, Function.comp_def]
+    apply List.map_congr_left
+    intro r _
+    have := dot_scale 1 c r s1
+    simpa [scaleBy] using this
+  · rw [wcosFrom_eq, wcosFrom_eq, dot_scale, dot_scale, dot_scale, sqrt_scale_sq c _ hc, sqrt_scale_sq d _ hd]
+    have hcc : 0 < c * c := mul_pos hc hc
+    have hdd : 0 < d * d := mul_pos hd hd
+    by_cases h : 0 < dot r1 s1 ∧ 0 < dot r2 s2
+    · rw [if_pos h, if_pos ⟨mul_pos hcc h.1, mul_pos hdd h.2⟩]
+      have := (Real.sqrt_pos.mpr h.1).ne'
+      have := (Real.sqrt_pos.mpr h.2).ne'
+      congr 1
+      field_simp
+    · rw [if_neg h, if_neg]
+      rintro ⟨a, b⟩
+      exact h ⟨(mul_pos_iff_of_pos_left hcc).mp a, (mul_pos_iff_of_pos_left hdd).mp b⟩
+
+/-- `cosine_cov` / `corr_cov` with `sigma_k = None`: the linear-CKA fast path is homogeneous in the RDM, so
+    the value as dispatched by the code (guard of `_cosine` from the text) does not depend on the scale -/
+theorem whitened_fast_scale (n : ℕ) (r1 r2 : List ℝ) (c d : ℝ) (hc : 0 < c) (hd : 0 < d) :
+    whitenedCosFast n (scaleBy c r1) (scaleBy d r2) = whitenedCosFast n r1 r2 ∧
+    whitenedCosDispatch SigmaK.none (scaleBy c r1) (scaleBy d r2) = whitenedCosDispatch SigmaK.none r1 r2 := by
+  have key : ∀ m, cosine (covWeighting m (scaleBy c r1)) (covWeighting m (scaleBy d r2))
+      = cosine (covWeighting m r1) (covWeighting m r2) := by
+    intro m
+    rw [covWeighting_scale, covWeighting_scale]
+    exact cosine_scale _ _ c d hc hd
+  refine ⟨key n, ?_⟩
+  unfold whitenedCosDispatch
+  have hr : covRouteOf (SigmaK.none : SigmaK ℝ) ≠ 1 := by
+    simp [covRouteOf, Rsa.Gen.C03.covRouteNone]
+  rw [if_neg hr, if_neg hr, scaleBy_length, cosineCoded_eq, cosineCoded_eq, covWeighting3_eq,
+    covWeighting3_eq, covWeighting3_eq, covWeighting3_eq, key]
+
+/-- the scale laws of the two Bures measures, kept as a statement (`eigh` is a contract; the laws are checked
+    on the code and inside the model by the correspondence and the oracle, claim `scale`) -/
+def bures_scale_full : Prop :=
+  ∀ (n : ℕ) (eigh : List (List ℝ) → List ℝ × List (List ℝ)), EigContract n eigh →
+    ∀ (A B : List (List ℝ)) (c d : ℝ), 0 < c → 0 < d →
+      SqrtContract n eigh A → SqrtContract n eigh (A.map (scaleBy c)) → IsSq n B →
+      buresSim eigh (A.map (scaleBy c)) (B.map (scaleBy d)) = buresSim eigh A B ∧
+      sqBuresMetric eigh (A.map (scaleBy c)) (B.map (scaleBy c)) = c * sqBuresMetric eigh A B
+
+-- non-vacuity: the MEG-in-tesla scale of the seeded change (norm² below machine epsilon) is a positive factor
+example : (0 : ℝ) < 1 / 2 ^ 90 ∧ cosine (scaleBy (1 / 2 ^ 90) [3, 0, 4]) (scaleBy (2 ^ 60) [3, 0, 4]) = 1 := by
+  refine ⟨by positivity, ?_⟩
+  rw [cosine_scale _ _ _ _ (by positivity) (by positivity)]
+  exact cosine_self _ ⟨3, by simp, by norm_num⟩
 
 end Rsa.Props.C03
